@@ -308,6 +308,17 @@ def corpus(args):
         fo.write(canon({"done": True}) + "\n")
 
 
+def dump(args):
+    """Write the generated scenarios of the given indices to files (no execution)."""
+    prop = args["property"]
+    mod = load_check(prop)
+    os.makedirs(args["dir"], exist_ok=True)
+    for index in args["indices"]:
+        sc = make_scenario(mod, prop, int(args["verif_seed"]), int(index), args["tier"])
+        with open(os.path.join(args["dir"], f"{int(index)}.json"), "w") as f:
+            json.dump(sc, f)
+
+
 def main(argv):
     args = json.loads(argv[1])
     mode = args["mode"]
@@ -316,6 +327,8 @@ def main(argv):
         prime(args)
     elif mode == "corpus":
         corpus(args)
+    elif mode == "dump":
+        dump(args)
     elif mode == "explore":
         explore(args)
     elif mode == "replay":
